@@ -1,4 +1,5 @@
 import Operon.Lemmas.C15
+import Operon.Lemmas.C15Dfs
 /-!
 # C15 — deadlock detection agrees with the real wait-for relation
 
@@ -10,8 +11,9 @@ Property theorems only.  Model: `Operon/Model/Coord.lean`, `CoordDfs.lean`, `Coo
 * reference graph = `refEdges h`: X → owner(r) for every active X whose last attempt on r was BLOCKED and that has
   not acquired r since (ghost state `pend` of `Operon.Coord.HSt`)
 
-What holds in full: a reported cycle is a cycle of the recorded graph; an edge is true when it is recorded; the
-victim rule; the state after handling.  What is false on the current tree (open finding
+What holds in full: `detect_cycle` reports a cycle exactly when the recorded graph has one (soundness and
+completeness of the DFS, for every graph); an edge is true when it is recorded; the victim rule; the state after
+handling.  What is false on the current tree (open finding
 C15-edges-dropped-on-progress): the recorded graph equals the reference graph at every point of every history.
 -/
 namespace Operon.Coord
@@ -29,6 +31,26 @@ theorem c15_reported_cycle_is_recorded_cycle (E : Edges) (c : List Nat) (h : det
     obtain ⟨b, hb⟩ := isCycle_mem_edge hc ha
     obtain ⟨r, hr⟩ := edge_hasEdge hb
     exact ⟨b, r, hb, hr⟩
+
+/-- **Every recorded cycle is reported** (completeness of the DFS, for every graph): if the recorded graph, as the
+    search reads it, contains a cycle, `detect_cycle` returns one.  The fuel of the model's recursion
+    (`dfsFuel` = number of node occurrences + 1) provably never runs out. -/
+theorem c15_detects_recorded_cycle (E : Edges) (c : List Nat) (h : IsCycle E c) :
+    ∃ c', detectCycle E = some c' ∧ IsCycle E c' := by
+  cases hd : detectCycle E with
+  | none => exact absurd h (detectCycle_complete E hd c)
+  | some c' => exact ⟨c', rfl, (detectFrom_sound E _ _ _ c' hd)⟩
+
+/-- `detect_cycle` answers the question "is there a cycle in the recorded graph" exactly -/
+theorem c15_reports_iff_recorded_cycle (E : Edges) : (detectCycle E).isSome = true ↔ ∃ c, IsCycle E c := by
+  constructor
+  · intro h
+    cases hd : detectCycle E with
+    | none => rw [hd] at h; cases h
+    | some c => exact ⟨c, detectFrom_sound E _ _ _ c hd⟩
+  · rintro ⟨c, hc⟩
+    obtain ⟨c', hc', _⟩ := c15_detects_recorded_cycle E c hc
+    rw [hc']; rfl
 
 /-- **A recorded edge is true when it is added.**  `acquire_resource` is the only call that adds edges, it adds
     at most one, only on BLOCKED, and that edge says: the calling operation waits for `r`, whose owner at that
@@ -125,14 +147,14 @@ theorem c15_exact_partial (h : HSt) (ops : List HOp) (hg : Good h) (ht : TrigFre
 /-- the starting point: a system in which nothing is owned, nothing is recorded and nobody waits -/
 theorem c15_good_init (s : Sys) (hfree : ∀ o r, ¬ Owns s o r) (hedges : s.edges = []) :
     Good { sys := s, pend := [] } := by
-  refine ⟨fun op => ⟨fun _ _ _ x hx => absurd hx (hfree op x), fun _ x => hfree op x⟩, ?_⟩
+  refine ⟨fun op => ⟨fun _ _ _ x hx => absurd hx (hfree op x), fun _ x => hfree op x⟩, ?_, by simp [hedges]⟩
   intro w b r
   simp only [Ref, HasEdge, hedges]
   simp
 
 /-- outside the trigger a reported cycle is a real one: every member is waiting, by the reference relation, for a
     resource owned by the member it has its recorded edge to (no phantom deadlock).  The converse — a reference
-    cycle is reported — additionally needs completeness of the DFS (`c15_detects_recorded_cycle`, not proved). -/
+    cycle is reported — is `c15_no_missed_deadlock_partial` (through `c15_detects_recorded_cycle`). -/
 theorem c15_reported_members_really_wait_partial (h : HSt) (ops : List HOp) (hg : Good h) (ht : TrigFree h ops)
     (c : List Nat) (hc : detectCycle (hrun h ops).sys.edges = some c) :
     IsCycle (hrun h ops).sys.edges c ∧
@@ -141,6 +163,43 @@ theorem c15_reported_members_really_wait_partial (h : HSt) (ops : List HOp) (hg 
   intro a b he
   obtain ⟨r, hr⟩ := edge_hasEdge he
   exact ⟨r, (c15_exact_partial h ops hg ht a b r).mp hr⟩
+
+/-- a cycle of the reference wait-for graph: a non-empty closed walk whose consecutive members `a`, `b` satisfy
+    "`a` waits for a resource owned by `b`" -/
+def RefCycle (h : HSt) (c : List Nat) : Prop :=
+  ∃ b, c.head? = some b ∧ ChainR (fun x y => ∃ r, (x, y, r) ∈ refEdges h) (c ++ [b])
+
+/-- **No missed deadlock outside the trigger**: along a trigger-free history, whenever the operations that are
+    blocked, together with the owners of what they wait for, form a wait-for cycle, `check_deadlock()` reports a
+    cycle (and by `c15_reported_members_really_wait_partial` the reported one is real).  Together: outside the
+    trigger the deadlock check reports a cycle exactly when the reference graph has one. -/
+theorem c15_no_missed_deadlock_partial (h : HSt) (ops : List HOp) (hg : Good h) (ht : TrigFree h ops)
+    (c : List Nat) (hc : RefCycle (hrun h ops) c) :
+    ∃ c', detectCycle (hrun h ops).sys.edges = some c' := by
+  have hgood := good_run ops hg ht
+  obtain ⟨b, hb, hch⟩ := hc
+  have hcyc : IsCycle (hrun h ops).sys.edges c :=
+    ⟨b, hb, chain_of_chainR (fun x y ⟨r, hr⟩ =>
+      hasEdge_edge hgood.keys ((c15_exact_partial h ops hg ht x y r).mpr hr)) _ hch⟩
+  obtain ⟨c', hc', _⟩ := c15_detects_recorded_cycle _ c hcyc
+  exact ⟨c', hc'⟩
+
+/-- … and conversely a report outside the trigger implies a reference cycle -/
+theorem c15_no_phantom_deadlock_partial (h : HSt) (ops : List HOp) (hg : Good h) (ht : TrigFree h ops)
+    (c : List Nat) (hc : detectCycle (hrun h ops).sys.edges = some c) : RefCycle (hrun h ops) c := by
+  obtain ⟨b, hb, hch⟩ := (c15_reported_cycle_is_recorded_cycle _ c hc).1
+  have hwait := (c15_reported_members_really_wait_partial h ops hg ht c hc).2
+  refine ⟨b, hb, ?_⟩
+  have key : ∀ l : List Nat, Chain (hrun h ops).sys.edges l →
+      ChainR (fun x y => ∃ r, (x, y, r) ∈ refEdges (hrun h ops)) l := by
+    intro l
+    induction l with
+    | nil => intro _; trivial
+    | cons a t ih =>
+      cases t with
+      | nil => intro _; trivial
+      | cons b' t' => intro hl; exact ⟨hwait a b' hl.1, ih hl.2⟩
+  exact key _ hch
 
 private def w0 : HSt := { sys := ((({} : Sys).register 1 false).register 2 false).register 3 false }
 private def wOps : List HOp := [.start 1 1, .start 2 2, .acq 1 1, .acq 2 2, .acq 2 1, .acq 1 3, .acq 1 2]
@@ -172,11 +231,11 @@ private def rOps : List HOp := [.start 1 2, .start 2 1, .acq 1 1, .acq 2 2, .acq
 
 /-- a trigger-free two-party deadlock: detected, reference and recorded graphs coincide, the victim rule and the
     handling theorem apply (their hypotheses are satisfiable) -/
-example : TrigFree r0 rOps ∧ detectCycle (hrun r0 rOps).sys.edges = some [1, 2] ∧
+example : TrigFree r0 rOps ∧ RefCycle (hrun r0 rOps) [1, 2] ∧ detectCycle (hrun r0 rOps).sys.edges = some [1, 2] ∧
     refEdges (hrun r0 rOps) = [(1, 2, 2), (2, 1, 1)] ∧
     (wdExecute (hrun r0 rOps).sys).2 = [(1, Reason.deadlock)] ∧
     detectCycle (wdExecute (hrun r0 rOps).sys).1.edges = none := by
-  refine ⟨?_, by decide, by decide, by decide, by decide⟩
+  refine ⟨?_, ⟨1, rfl, ⟨⟨2, by decide⟩, ⟨1, by decide⟩, trivial⟩⟩, by decide, by decide, by decide, by decide⟩
   simp only [TrigFree, rOps]
   decide
 
